@@ -9,7 +9,7 @@ import (
 // are avoided in 80% of that property's runs and allowed in 20% (which re-confirms the
 // finding); every other property's check always steers around them.
 var ownTriggers = map[string][]string{
-	"C01": {"len-merge-put"},
+	"C01": {"len-merge-put", "enum-hash-collision"},
 	"C02": {"fail-in-commit", "rollback-insert", "phantom-reserved"},
 	"C03": {"index-build-during-apply"},
 	"C04": {"union-after-clear", "agg-missing-value"},
@@ -27,7 +27,7 @@ var ownTriggers = map[string][]string{
 func knownAvoid(prop string, seed uint64, run int) avoid {
 	a := avoid{putThenDelete: true, failInCommit: true, mergeAfterReuse: true, lenMergeThenPut: true, dupKeyInTxn: true,
 		aggStale: true, rollbackInsert: true, unionAfterClear: true, doubleDelete: true, phantomReserved: true,
-		snapshotReserved: true, concurrentKeyInsert: true, ttlDuringPass: true, schemaChange: true, blockGrowth: true, enumBesideReaders: true, indexDuringApply: true}
+		snapshotReserved: true, concurrentKeyInsert: true, ttlDuringPass: true, schemaChange: true, blockGrowth: true, enumBesideReaders: true, indexDuringApply: true, enumCollision: true}
 	r := NewRng(seed, uint64(run), 1234)
 	allow := func(name string) {
 		switch name {
@@ -65,6 +65,8 @@ func knownAvoid(prop string, seed uint64, run int) avoid {
 			a.enumBesideReaders = false
 		case "index-build-during-apply":
 			a.indexDuringApply = false
+		case "enum-hash-collision":
+			a.enumCollision = false
 		}
 	}
 	for _, t := range ownTriggers[prop] {
